@@ -32,4 +32,6 @@ CONSTANTS
   PlainIdentity = FALSE
   KeyByNumber = FALSE
   CryptProbeDirectOnly = TRUE
+  ParmRefLayouts = {}
+  InlinedAsIs = FALSE
 INVARIANTS Shape
